@@ -384,6 +384,114 @@ func c05(c *Ctx) {
 		}
 		c.Expect(n == 1, nil, oh, "half-closed-streams-marked", "a request that ends with its HEADERS frame is not marked read-done")
 	})
+	c.Ob("stream-read-loops", "R3", "Stream.read / Stream.ReadMessageHeader: success is returned only when the requested count reached zero; a reader error is dropped only when the request was completed by the same call; the loop goes on only without an error; a partial read that ends in io.EOF is reported as io.ErrUnexpectedEOF (exactly that substitution), so a message cut short never looks like a clean end", 8, func() {
+		eofG := GlobalLoad(c.konst("std:io", "EOF"))
+		uEOF := GlobalLoad(c.konst("std:io", "ErrUnexpectedEOF"))
+		for _, d := range []struct{ fn, rd string }{{"Stream.read", "transportReader.Read"}, {"Stream.ReadMessageHeader", "transportReader.ReadMessageHeader"}} {
+			f := c.fn(tr, d.fn)
+			rd := one(c, "reader call in "+d.fn, callsIn(f, Callee(tr, d.rd)))
+			rerr := ExtractOf(func(v ssa.Value) bool { return v == rd.Value() }, 1)
+			// the loop header and its remaining-count test
+			var hdr *ssa.BasicBlock
+			for b := rd.Block(); b != nil; b = b.Idom() {
+				if isLoopHeader(b) {
+					hdr = b
+					break
+				}
+			}
+			if !c.Expect(hdr != nil && len(hdr.Succs) == 2, rd, f, d.fn+":read-loop", "the reader is not called in a loop over the remaining count") {
+				continue
+			}
+			cond, _ := hdr.Instrs[len(hdr.Instrs)-1].(*ssa.If).Cond.(*ssa.BinOp)
+			if !c.Expect(cond != nil, rd, f, d.fn+":remaining-test", "the loop is not controlled by the remaining count") {
+				continue
+			}
+			remaining := func(v ssa.Value) bool { return v == cond.X }
+			// success only from the loop's own exit
+			for _, r := range returnsOf(f) {
+				if r.Block() == f.Recover {
+					continue
+				}
+				last := r.Results[len(r.Results)-1]
+				if ConstNil(strip(last)) {
+					for _, p := range r.Block().Preds {
+						c.Expect(p == hdr, r, f, d.fn+":success-only-when-everything-was-read", "success is returned from inside the read loop (before the requested count reached zero)")
+					}
+					c.EnteredOnlyWhen(r.Block(), d.fn+":success-only-with-nothing-remaining", CmpInt(remaining, token.LEQ, 0))
+				}
+			}
+			// the error variable after "if remaining == 0 { err = nil }"
+			var errPhi *ssa.Phi
+			for _, b := range f.Blocks {
+				for _, in := range b.Instrs {
+					if ph, ok := in.(*ssa.Phi); ok && len(ph.Edges) == 2 && isErrorType(ph.Type()) {
+						hasNil, hasRd := false, false
+						for _, e := range ph.Edges {
+							if ConstNil(e) {
+								hasNil = true
+							}
+							if rerr(e) {
+								hasRd = true
+							}
+						}
+						if hasNil && hasRd {
+							errPhi = ph
+						}
+					}
+				}
+			}
+			if !c.Expect(errPhi != nil, rd, f, d.fn+":completed-read-drops-the-error", "no 'request completed: ignore the error' step found") {
+				continue
+			}
+			for i, e := range errPhi.Edges {
+				if ConstNil(e) {
+					pr := errPhi.Block().Preds[i]
+					fs := incomingFacts(pr, errPhi.Block())
+					okZ := true
+					for _, s1 := range fs {
+						if _, h := hasFact(s1, CmpInt(AnyV, token.EQL, 0)); !h {
+							okZ = false
+						}
+					}
+					c.Expect(okZ, rd, f, d.fn+":error-dropped-only-when-the-request-was-completed", "a reader error is discarded although bytes are still missing")
+				}
+			}
+			isErr := func(v ssa.Value) bool { return v == ssa.Value(errPhi) }
+			// back edge only without error; error return only with one
+			for _, p := range hdr.Preds {
+				if p != hdr && hdr.Dominates(p) {
+					_, h := hasFact(append(append([]Fact(nil), FactsAtBlock(p)...), edgeOnlyFacts(p, hdr)...), IsNil(isErr))
+					c.Expect(h, p.Instrs[len(p.Instrs)-1], f, d.fn+":loop-continues-only-without-an-error", "the read loop goes on after the reader reported an error")
+				}
+			}
+			// EOF substitution
+			for _, r := range returnsOf(f) {
+				if r.Block() == f.Recover {
+					continue
+				}
+				ph, ok := r.Results[len(r.Results)-1].(*ssa.Phi)
+				if !ok || ph == errPhi {
+					continue
+				}
+				nSub := 0
+				for i, e := range ph.Edges {
+					pr := ph.Block().Preds[i]
+					fs := append(append([]Fact(nil), FactsAtBlock(pr)...), edgeOnlyFacts(pr, ph.Block())...)
+					if uEOF(e) {
+						nSub++
+						_, a := hasFact(fs, Cmp(isErr, token.EQL, eofG))
+						_, b := hasFact(fs, CmpInt(AnyV, token.GTR, 0))
+						c.Expect(a && b, r, f, d.fn+":unexpected-EOF-exactly-for-a-partial-read-ending-in-EOF", "io.ErrUnexpectedEOF is substituted under a condition other than 'some bytes read and the error is io.EOF'")
+					} else if isErr(e) {
+						_, a := hasFact(fs, Cmp(isErr, token.NEQ, eofG))
+						_, b := hasFact(fs, CmpInt(AnyV, token.LEQ, 0))
+						c.Expect(a || b, r, f, d.fn+":EOF-kept-only-when-nothing-was-read", "io.EOF is passed on although part of the request had been read (a message cut short would look like a clean end of stream)")
+					}
+				}
+				c.Expect(nSub == 1, r, f, d.fn+":partial-read-EOF-substituted", "a partial read that ends in io.EOF is not turned into io.ErrUnexpectedEOF")
+			}
+		}
+	})
 	c.Ob("get-then-load", "R3", "both receive helpers call load() before anything else so that the next queued item moves to the channel; every reader passes the received item to them", 6, func() {
 		for _, name := range []string{"recvBufferReader.readAdditional", "recvBufferReader.readMessageHeaderAdditional"} {
 			f := c.fn(tr, name)
